@@ -98,9 +98,7 @@ def configs(tier):
     add("grid2x2", 1, (1, 1), ["f0", "s", "f1", "s+f0+f1"])
     add("grid3x2", 1, (1, 1))
     for k in (3, 4, 5, 6):
-        if quick and k == 6:
-            continue
-        add("ring%d" % k, 1, (1, 1))
+        add("ring%d" % k, 1, (1, 1))      # six patches around a vertex: three independently created classes can meet
         if not quick or k <= 4:
             add("ring%d" % k, 2, (1, 1), ["f0" if j % 2 else "" for j in range(k)] if k % 2 == 0 else None)
     if not quick:
